@@ -149,9 +149,88 @@ def discharge(ob, timeout_s=None, want_model=True):
             ob.note += " %s says sat (no model extracted)" % label
         return False
 
+    def has_quant(f):
+        seen = set()
+        todo = [f]
+        while todo:
+            x = todo.pop()
+            if z3.is_quantifier(x):
+                return True
+            if x.get_id() in seen:
+                continue
+            seen.add(x.get_id())
+            todo.extend(x.children())
+        return False
+
+    def qf_try(tmo):
+        """sound shortcut: drop the quantified hypotheses (fewer hypotheses); only `unsat` counts"""
+        qf = [p for p in flat if not has_quant(p)]
+        if len(qf) == len(flat) or has_quant(ob.goal):
+            return False
+        s = z3.Solver()
+        s.set("timeout", int(tmo * 1000))
+        for p in qf:
+            s.add(p)
+        s.add(z3.Not(ob.goal))
+        try:
+            if s.check() == z3.unsat:
+                ob.status, ob.backend = "proved", "z3-api/qf-hypotheses"
+                return True
+        except z3.Z3Exception:      # pragma: no cover
+            pass
+        return False
+
+    def inst_try(tmo):
+        """sound heuristic for array-shift style VCs that defeat E-matching: split the goal into conjuncts,
+        skolemise universally quantified conjuncts, instantiate every Int-quantified hypothesis at the skolem
+        constants +-0..2 (instances of hypotheses are consequences of them), and decide the quantifier-free rest.
+        Only `unsat` of every conjunct counts."""
+        conjs = ob.goal.children() if z3.is_and(ob.goal) else [ob.goal]
+        qhyps = [p for p in flat if z3.is_quantifier(p) and p.is_forall()]
+        base = [p for p in flat if not has_quant(p)]
+        if not qhyps and len(conjs) == 1:
+            return False
+        deadline = time.time() + tmo
+        for ci, c in enumerate(conjs):
+            sks = []
+            body = c
+            if z3.is_quantifier(c) and c.is_forall():
+                sks = [z3.Const("sk!%d!%s" % (ci, c.var_name(i)), c.var_sort(i)) for i in range(c.num_vars())]
+                body = z3.substitute_vars(c.body(), *reversed(sks))
+            if has_quant(body):
+                return False
+            cands = []
+            for sk in sks:
+                if sk.sort() == z3.IntSort():
+                    cands += [sk + d if d else sk for d in (0, -2, 2, -1, 1)]
+            insts = []
+            for q in qhyps:
+                nv = q.num_vars()
+                if nv > 2 or any(q.var_sort(i) != z3.IntSort() for i in range(nv)) or not cands:
+                    continue
+                import itertools
+                for combo in itertools.product(cands, repeat=nv):
+                    insts.append(z3.substitute_vars(q.body(), *reversed(combo)))
+            s = z3.Solver()
+            s.set("timeout", int(max(1.0, deadline - time.time()) * 1000))
+            for p in base + insts:
+                s.add(p)
+            s.add(z3.Not(body))
+            try:
+                if s.check() != z3.unsat:
+                    return False
+            except z3.Z3Exception:      # pragma: no cover
+                return False
+        ob.status, ob.backend = "proved", "z3-api/skolemise+instantiate"
+        return True
+
+    flat = []
+    for p in ob.path:
+        flat.extend(p.children() if z3.is_and(p) else [p])
+
     # portfolio: short z3, cvc5, then z3 at the full budget with two configurations, then z3 4.8
     short = max(2.0, timeout_s / 6.0)
-    done = (z3_try("z3-api", {}, short)
+    done = (qf_try(short) or z3_try("z3-api", {}, short) or inst_try(timeout_s)
             or cli_try("cvc5-cli", ["/usr/bin/cvc5", "--tlimit=%d" % int(timeout_s * 1000)], timeout_s)
             or z3_try("z3-api", {}, timeout_s)
             or z3_try("z3-api/seed7", {"random_seed": 7, "smt.arith.solver": 2}, timeout_s)
@@ -163,10 +242,36 @@ def discharge(ob, timeout_s=None, want_model=True):
 
 
 def check_sat(constraints, timeout_s=10):
+    """reachability cover.  With quantified constraints z3 often answers `unknown` for satisfiable sets; the
+    cover then falls back to the quantifier-free part (a weaker cover, still catching contradictory
+    quantifier-free preconditions and dead paths)."""
     s = z3.Solver()
     s.set("timeout", int(timeout_s * 1000))
     for c in constraints:
         s.add(c)
+    r = s.check()
+    if r != z3.unknown:
+        return r
+
+    def has_quant(f):
+        todo, seen = [f], set()
+        while todo:
+            x = todo.pop()
+            if z3.is_quantifier(x):
+                return True
+            if x.get_id() in seen:
+                continue
+            seen.add(x.get_id())
+            todo.extend(x.children())
+        return False
+    flat = []
+    for c in constraints:
+        flat.extend(c.children() if z3.is_and(c) else [c])
+    s = z3.Solver()
+    s.set("timeout", int(timeout_s * 1000))
+    for c in flat:
+        if not has_quant(c):
+            s.add(c)
     return s.check()
 
 
